@@ -58,6 +58,8 @@ const (
 	opName                // write a fresh, unique string (useful in name position)
 	opDeepEscape          // close Arg ENCLOSING containers (whatever their kinds), reopen the same kinds and refill them
 	opNestedEscape        // open an array, marshal an int through a MarshalToFunc whose script is opDeepEscape(Arg), close the array
+	opFailRecover         // json.MarshalEncode(failingValue(Arg)); on error: swallow it and finish the open containers by hand, re-using names
+	opCloseOwn            // close every container still open above the entry depth (without adding members)
 )
 
 type Op struct {
@@ -76,6 +78,7 @@ type Trace struct {
 	OpErrs    int  // encoder calls of scripts that returned an error (ignored or not)
 	Uniq      int  // counter for fresh names
 	Nest      int  // current recursion depth of user code (scripts may re-enter Marshal)
+	Swallowed int  // failed nested MarshalEncode calls whose error the script swallowed
 	Dropped   bool // an AppendText returned a slice that does not extend the buffer it was given (contract breach)
 }
 
@@ -122,6 +125,10 @@ func (b *Beh) desc() string {
 			fmt.Fprintf(&sb, "deep-escape:%d", o.Arg)
 		case opNestedEscape:
 			fmt.Fprintf(&sb, "nested-escape:%d", o.Arg)
+		case opFailRecover:
+			fmt.Fprintf(&sb, "fail-recover:%d/%d", o.Arg, o.Arg2)
+		case opCloseOwn:
+			sb.WriteString("close-own")
 		case opOneValue:
 			fmt.Fprintf(&sb, "one:%d", o.Arg)
 		case opName:
@@ -275,6 +282,15 @@ func (b *Beh) run(enc *jsontext.Encoder) error {
 			err = escapeContainer(enc, tr, note)
 		case opDeepEscape:
 			err = deepEscape(enc, o.Arg, tr, note)
+		case opFailRecover:
+			e := json.MarshalEncode(enc, failingValue(o.Arg, b), failOpts(o.Arg2, tr)...)
+			note(e)
+			if e != nil {
+				tr.Swallowed++
+				completeByHand(enc, entry, o.Arg2, true, note)
+			}
+		case opCloseOwn:
+			completeByHand(enc, entry, 0, false, note)
 		case opNestedEscape:
 			// the inner function runs one level below a container that THIS script opened: it may end neither that
 			// array nor anything around it
@@ -362,6 +378,128 @@ func escapeContainer(enc *jsontext.Encoder, tr *Trace, note func(error) bool) er
 		}
 	}
 	return errors.Join(errs...)
+}
+
+// Payloads whose marshaling fails part-way, at some depth inside arrays, unique-key maps, namespace-checked maps
+// and structs (whose duplicate-name tracking is done outside the Encoder).
+type cfA struct {
+	A []any `json:"a"`
+	B int   `json:"b"`
+}
+type cfM struct {
+	A map[int]any `json:"a"`
+	B int         `json:"b"`
+}
+type cfN struct {
+	X int    `json:"x"`
+	A cfA    `json:"a"`
+	B string `json:"b"`
+}
+type cfU struct {
+	A []UJ `json:"a"`
+	B int  `json:"b"`
+}
+type cfS struct {
+	A []string `json:"a"`
+	B int      `json:"b"`
+}
+type cfF struct {
+	A map[float64]any `json:"a"`
+	B int             `json:"b"`
+}
+type cfT struct {
+	A map[UStr][]any `json:"a"`
+	B *cfA           `json:"b"`
+}
+
+func failingValue(i int, b *Beh) any {
+	var bad any
+	switch i % 4 { // how it fails
+	case 0:
+		bad = make(chan int)
+	case 1:
+		bad = func() {}
+	case 2:
+		bad = UJ{B: &Beh{ID: -5, Ret: retErr, Early: true, tr: b.tr}}
+	default:
+		bad = "\xff"
+	}
+	if i%16 == 15 {
+		bad = "fine" // sometimes nothing fails
+	}
+	switch (i / 4) % 12 { // where
+	case 0:
+		return &cfA{A: []any{1, bad}, B: 2}
+	case 1:
+		return cfM{A: map[int]any{1: bad}, B: 2}
+	case 2:
+		return cfN{X: 1, A: cfA{A: []any{[]any{bad}}, B: 2}, B: "b"}
+	case 3:
+		if u, ok := bad.(UJ); ok {
+			return cfU{A: []UJ{{}, u}, B: 2}
+		}
+		return cfS{A: []string{"ok", "\xff"}, B: 2}
+	case 4:
+		return cfF{A: map[float64]any{1.5: []any{bad}}, B: 2}
+	case 5:
+		return cfT{A: map[UStr][]any{"k": {1, bad}}}
+	case 6:
+		return map[string]any{"a": []any{1, bad}}
+	case 7:
+		return map[string]any{"a": map[string]any{"a": []any{bad}}}
+	case 8:
+		return []any{cfA{A: []any{bad}}}
+	case 9:
+		return map[int]cfA{7: {A: []any{0, bad}}}
+	case 10:
+		return cfT{B: &cfA{A: []any{map[string]any{"a": bad}}}}
+	default:
+		return struct {
+			A any `json:"a"`
+			B any `json:"b,omitempty"`
+		}{A: []any{}, B: []any{bad}}
+	}
+}
+
+func failOpts(i int, tr *Trace) []json.Options {
+	switch (i / 8) % 8 {
+	case 1:
+		tr.RelaxDup = true
+		return []json.Options{jsontext.AllowDuplicateNames(true)}
+	case 2:
+		tr.RelaxUTF8 = true
+		return []json.Options{jsontext.AllowInvalidUTF8(true)}
+	case 3:
+		return []json.Options{json.Deterministic(true)}
+	case 4:
+		return []json.Options{json.StringifyNumbers(true)}
+	}
+	return nil
+}
+
+// completeByHand closes every container that is open above the script's entry depth.  With addMember it first
+// writes, into every object, a member whose name was already used by the payloads (`a`, `b`, `x`, `1`, `k`).
+func completeByHand(enc *jsontext.Encoder, entry, pick int, addMember bool, note func(error) bool) {
+	names := []string{"a", "a", "b", "a", "x", "a", "1", "k", "a", "7", "1.5"}
+	for i := 0; i < 64 && enc.StackDepth() > entry; i++ {
+		d := enc.StackDepth()
+		kind, n := enc.StackIndex(d)
+		if kind == '[' {
+			note(enc.WriteToken(jsontext.EndArray))
+		} else {
+			if n%2 == 1 {
+				note(enc.WriteToken(jsontext.String("pending")))
+			}
+			if addMember {
+				note(enc.WriteToken(jsontext.String(names[(pick+i)%len(names)])))
+				note(enc.WriteToken(jsontext.String("recovered")))
+			}
+			note(enc.WriteToken(jsontext.EndObject))
+		}
+		if enc.StackDepth() >= d {
+			break // refused: leave it (the caller's one-value test will then fail)
+		}
+	}
 }
 
 // deepEscape generalises escapeContainer to `levels` enclosing containers of any kinds: `]` `}` … then the same
@@ -566,6 +704,26 @@ type CEmbedPtrRaw struct {
 	EmbInner
 	P *jsontext.Value `json:",embed"`
 	T time.Time       `json:"t,omitzero,format:unixmilli"`
+}
+
+// every NAMED layout that prints the zone ABBREVIATION (free text of the Location), plus durations in text form
+type CTimes struct {
+	A time.Time     `json:"a,format:RFC1123"`
+	B time.Time     `json:"b,format:UnixDate"`
+	C time.Time     `json:"c,format:RFC822"`
+	D time.Time     `json:"d,format:RFC850"`
+	G *time.Time    `json:"g,omitzero,format:RFC1123"`
+	H time.Time     `json:"h,omitzero"`
+	I time.Duration `json:"i,format:units"`
+	J time.Duration `json:"j,format:iso8601"`
+}
+
+// hand-written layouts (kept apart: an error here must not hide what the named layouts do with the same time)
+type CTimesCustom struct {
+	E time.Time               `json:"e,format:'(MST)'"`
+	F time.Time               `json:"f,format:'Mon Jan _2 15:04:05 MST 2006'"`
+	K map[string]time.Time    `json:"k"`
+	L map[time.Time]time.Time `json:"l"`
 }
 type CTextKeyed struct {
 	K map[UT]UJ     `json:"k"`
